@@ -5,7 +5,7 @@
   dropped, of value `r`:
       g.n = s.sig · 10^k + r,  r < 10^k,  trunc = [r ≠ 0],  dropping only happens above `0x18ff…·2^64`,
       nfrac = nf − k  (as integers: no wrap-around),
-      exp = ev, or saturated: 10^9 ≤ exp ≤ ev  (exp < 10^10 always).
+      exp = ev, or saturated: 2^58 ≤ exp ≤ ev  (exp ≤ 10·2^58 + 9 always).
 
   * `ParseLong.Rel`                the relation
   * `expDigit_toInt`               one exponent digit on `Int64`, without wrap-around
@@ -34,8 +34,8 @@ structure Rel (s : S2) (g : G) (k r : Nat) : Prop where
   nfrac : s.nfrac.toInt = (g.nf : Int) - (k : Int)
   ex0 : 0 ≤ s.exp.toInt
   ex1 : s.exp.toInt ≤ (g.ev : Int)
-  ex2 : s.exp.toInt < 10 ^ 10
-  ex3 : s.exp.toInt < 10 ^ 9 → s.exp.toInt = (g.ev : Int)
+  ex2 : s.exp.toInt < 10 * 2 ^ 58 + 10
+  ex3 : s.exp.toInt < 2 ^ 58 → s.exp.toInt = (g.ev : Int)
 
 theorem rel_init : Rel (toS2 init1) g0 0 0 := by
   refine ⟨rfl, rfl, rfl, ?_, by decide, rfl, fun h => absurd h (by decide), by decide, ?_, ?_, ?_, ?_, ?_⟩
@@ -71,7 +71,7 @@ theorem rel_same {s s' : S2} {g g' : G} {k r : Nat} (hR : Rel s g k r)
 
 /-! ## exponent digits -/
 
-theorem i64_mul10_toInt (e : Int64) (h0 : 0 ≤ e.toInt) (h1 : e.toInt < 10 ^ 9) :
+theorem i64_mul10_toInt (e : Int64) (h0 : 0 ≤ e.toInt) (h1 : e.toInt < 2 ^ 58) :
     (e * (10 : Int64)).toInt = e.toInt * 10 := by
   rw [Int64.toInt_mul]
   have : (10 : Int64).toInt = 10 := by decide
@@ -79,12 +79,12 @@ theorem i64_mul10_toInt (e : Int64) (h0 : 0 ≤ e.toInt) (h1 : e.toInt < 10 ^ 9)
   apply Int.bmod_eq_of_le <;> omega
 
 theorem expDigit_toInt (c : UInt8) (hd : isDig c = true) (e : Int64) (h0 : 0 ≤ e.toInt) :
-    (expDigit c e).toInt = if e.toInt < 10 ^ 9 then e.toInt * 10 + (dval c : Int) else e.toInt := by
+    (expDigit c e).toInt = if e.toInt < 2 ^ 58 then e.toInt * 10 + (dval c : Int) else e.toInt := by
   unfold expDigit
-  have hk : (1000000000 : Int64).toInt = 10 ^ 9 := by decide
-  have hlt : (e < (1000000000 : Int64)) ↔ e.toInt < 10 ^ 9 := by
+  have hk : (288230376151711744 : Int64).toInt = 2 ^ 58 := by decide
+  have hlt : (e < (288230376151711744 : Int64)) ↔ e.toInt < 2 ^ 58 := by
     rw [Int64.lt_iff_toInt_lt, hk]
-  by_cases h : e.toInt < 10 ^ 9
+  by_cases h : e.toInt < 2 ^ 58
   · rw [if_pos (hlt.mpr h), if_pos h]
     have hm := i64_mul10_toInt e h0 h
     have hc := conv_digit_i64 c hd
@@ -136,9 +136,9 @@ theorem step2_rel (sep : Bool) (c : UInt8) (s s' : S2) (g : G) (k r : Nat)
         rw [hE]; split <;> omega
       · show (expDigit c s.exp).toInt ≤ ((g.ev * 10 + dval c : Nat) : Int)
         rw [hE]; push_cast; split <;> omega
-      · show (expDigit c s.exp).toInt < 10 ^ 10
+      · show (expDigit c s.exp).toInt < 10 * 2 ^ 58 + 10
         rw [hE]; split <;> omega
-      · show (expDigit c s.exp).toInt < 10 ^ 9 → (expDigit c s.exp).toInt = ((g.ev * 10 + dval c : Nat) : Int)
+      · show (expDigit c s.exp).toInt < 2 ^ 58 → (expDigit c s.exp).toInt = ((g.ev * 10 + dval c : Nat) : Int)
         rw [hE]; push_cast; split <;> omega
     · -- a significand digit
       have hse' : s.sawexp = false := by simpa using hse
